@@ -333,5 +333,10 @@ def run(ctx, ck):
         r_ = seen_v.get(isc)
         ck.ob('R-KIND.source-voltage', '%s|%s' % (ex.qual, 'complex' if isc else 'polar'), r_ is not None and r_[0], ex.loc(),
               ('%s given: %s' % ('complex voltage' if isc else 'magnitude and phase in degrees', r_[1])) if r_ else 'no such path')
+    # the currents of a solve belong to the sources and voltages of that solve: every step of compute() runs on
+    # every call (a right-hand side kept from an earlier solve would pair new voltages with old currents)
+    ck.rule('R-FRESH.solve-order', 'compute() fills matrix, loads, right-hand side and currents exactly once each, in this order, on every path')
+    from .C14 import check_solve_order
+    check_solve_order(ctx, ck, rule='R-FRESH.solve-order')
     ck.undecided += ['numerical superposition of several sources',
                      'two sources registered on the same pulse (statement does not define it)']
